@@ -1,5 +1,194 @@
-(** C16 — placeholder while the facts are being proved *)
-From Tibc Require Import Base.Bytes Genesis.Export.
-Theorem C16_stub : app_reimport [] = [].
-Proof. reflexivity. Qed.
-Print Assumptions C16_stub.
+(** C16 — genesis export and re-import preserve all protocol state.
+    Statements only; the model is Genesis/Export.v (the tibc KVStore as a list of
+    byte keys and values, [export] / [import] as coded, a panic is [None]), the
+    proofs are in Genesis/{ExportFacts,Continuation,Witness}.v.
+
+    [wf_store s]: the keys of [s] are distinct and each is one the protocol's key
+    builders produce from '/'-free names and uint64 numbers: chainName,
+    Routing/Rules, relayers<name>, clients/<name>/clientState (a registered client
+    type), clients/<name>/consensusStates/<16 height bytes> (ANY uint64 revision and
+    height), clients/<name>/<any key selected by the ExportMetadata of that client's
+    type>, {commitments,receipts,acks}/<a>/<b>/sequences/<n> (receipts hold 0x01),
+    nextSequenceSend/<a>/<b> (8 bytes), clean/<a>/<b>, maxAckSeq/<a>/<b>.
+    [expected s k]: chainName -> the chain name; Routing/Rules -> the rules value
+    (an absent or "null" list re-encoded as "[]"); any key under clean/ or maxAckSeq/
+    -> nothing; every other key -> what [s] holds. *)
+From Tibc Require Import Base.Bytes Base.FMap Host.Keys Host.KeysFacts Packet.Types Packet.Keeper
+  Apps.Path Apps.Nft Apps.Mt Genesis.Export Genesis.ExportFacts Genesis.Continuation Genesis.Witness.
+
+(** the export of a well-formed store never panics *)
+Theorem C16_export_total : forall s, wf_store s -> exists g, export s = Some g.
+Proof. exact export_total. Qed.
+Print Assumptions C16_export_total.
+
+(** the re-imported store, for EVERY key: covered families come back byte for
+    byte, nothing else appears, the uncovered families are gone *)
+Theorem C16_roundtrip_covered : forall s, wf_store s ->
+  exists g, export s = Some g /\ forall k, lookup k (import g) = expected s k.
+Proof. exact roundtrip. Qed.
+Print Assumptions C16_roundtrip_covered.
+
+(** a consensus state at ANY height survives: no condition on the bytes of the
+    revision or the height (47, 303, 12032 contain '/', 795044969-7308907147052545125
+    ends in "/clientState"), nor on the client name *)
+Theorem C16_consensus_state_survives : forall s g name rev h,
+  wf_store s -> export s = Some g ->
+  lookup (cons_key name rev h) (import g) = lookup (cons_key name rev h) s.
+Proof. exact consensus_state_survives. Qed.
+Print Assumptions C16_consensus_state_survives.
+
+(** ... and so does every other key of every client's sub-store: the client state,
+    Tendermint processed times and iteration keys, BSC recent signers and pending
+    validators, ETH header index and main-root index *)
+Theorem C16_client_store_survives : forall s g name rk,
+  wf_store s -> export s = Some g ->
+  lookup (client_prefix name ++ rk) (import g) = lookup (client_prefix name ++ rk) s.
+Proof. exact client_store_survives. Qed.
+Print Assumptions C16_client_store_survives.
+
+(** pending commitments, receipts (replay protection), acknowledgements, send sequences *)
+Theorem C16_packet_families_survive : forall s g a b n,
+  wf_store s -> export s = Some g ->
+  lookup (commit_key a b n) (import g) = lookup (commit_key a b n) s /\
+  lookup (receipt_key a b n) (import g) = lookup (receipt_key a b n) s /\
+  lookup (ack_key a b n) (import g) = lookup (ack_key a b n) s /\
+  lookup (next_send_key a b) (import g) = lookup (next_send_key a b) s.
+Proof. exact packet_families_survive. Qed.
+Print Assumptions C16_packet_families_survive.
+
+(** relayer registry, chain name, routing rules *)
+Theorem C16_registry_survives : forall s g name,
+  wf_store s -> export s = Some g ->
+  lookup (relayer_key name) (import g) = lookup (relayer_key name) s /\
+  lookup K_chainName (import g) = Some (chain_name_of s) /\
+  lookup K_rules (import g) = Some (rules_value (lookup K_rules s)).
+Proof. exact registry_survives. Qed.
+Print Assumptions C16_registry_survives.
+
+Theorem C16_nothing_else_appears : forall s g k v,
+  wf_store s -> export s = Some g ->
+  lookup k (import g) = Some v -> k = K_chainName \/ k = K_rules \/ lookup k s = Some v.
+Proof. exact nothing_else_appears. Qed.
+Print Assumptions C16_nothing_else_appears.
+
+(** NOT preserved (recorded findings): no clean point and no highest acknowledged
+    sequence ever survives, whatever the store *)
+Theorem C16_clean_and_max_ack_never_survive : forall s g a b,
+  wf_store s -> export s = Some g ->
+  lookup (clean_key a b) (import g) = None /\ lookup (maxack_key a b) (import g) = None.
+Proof. exact uncovered_never_survive. Qed.
+Print Assumptions C16_clean_and_max_ack_never_survive.
+
+(** ... with the consequence, on the packet model: a chain that refuses a cleaned
+    packet delivers it to the application again after being restarted from its export *)
+Theorem C16_roundtrip_missing_refuted :
+  exists (c : chain unit) (p : packet) (pf : proof) (h : N),
+    wf_store (c_kv unit c) /\
+    step unit w_H w_has_route w_on_recv w_on_ack c (ORecv p pf h) = (c, None) /\
+    exists c' ev,
+      step unit w_H w_has_route w_on_recv w_on_ack (reimport_chain unit c) (ORecv p pf h) = (c', Some ev) /\
+      In (EDeliver p) ev /\
+      lookup (clean_key (p_src p) (p_dst p)) (c_kv unit c) = Some (be64 2) /\
+      lookup (clean_key (p_src p) (p_dst p)) (c_kv unit (reimport_chain unit c)) = None.
+Proof.
+  exists w_chainB, w_pkt, w_proof, 7. exact clean_point_lost_replay_accepted.
+Qed.
+Print Assumptions C16_roundtrip_missing_refuted.
+
+(** a clean request the chain accepts is refused after the restart (highest
+    acknowledged sequence lost) *)
+Theorem C16_max_ack_lost_refuted :
+  exists (c : chain unit) (cp : cleanpkt),
+    wf_store (c_kv unit c) /\
+    (exists c' ev, step unit w_H w_has_route w_on_recv w_on_ack c (OClean cp) = (c', Some ev)) /\
+    step unit w_H w_has_route w_on_recv w_on_ack (reimport_chain unit c) (OClean cp) = (reimport_chain unit c, None).
+Proof.
+  exists w_chainA, w_clean. pose proof max_ack_lost_clean_refused as (A & B & C & _). auto.
+Qed.
+Print Assumptions C16_max_ack_lost_refuted.
+
+(** the transfer applications export nothing: every class trace is gone, and then
+    no voucher class ("tibc-<HASH>") can be sent by the NFT or the MT application *)
+Theorem C16_class_traces_refuted :
+  (forall s k, lookup k (app_reimport s) = None) /\
+  (forall escrow enc name seq classes tokens class id sender receiver dest relay contract,
+     has_prefix tibc_dash class = true ->
+     nft_send escrow enc name seq (mkNftState classes tokens []) class id sender receiver dest relay contract = None) /\
+  (forall escrow enc name seq classes mts supply bal class id sender receiver dest relay contract amt,
+     has_prefix tibc_dash class = true ->
+     mt_send escrow enc name seq (mkMtState classes mts supply bal []) class id sender receiver dest relay contract amt = None).
+Proof.
+  split; [exact traces_lost|]. split; [exact nft_voucher_stuck | exact mt_voucher_stuck].
+Qed.
+Print Assumptions C16_class_traces_refuted.
+
+(** the packet sub-module's export / import alone, on any well-formed store *)
+Theorem C16_packet_roundtrip : forall s, wf_store s ->
+  forall k, lookup k (pkt_reimport s) = if pcovered k then lookup k s else None.
+Proof. exact pkt_roundtrip. Qed.
+Print Assumptions C16_packet_roundtrip.
+
+(** continuation: when the packet store holds only exported families (no clean
+    point, no highest acknowledged sequence), EVERY later history of packet
+    operations, whatever the application callbacks, the hash and the routing, gives the
+    same results (event log) and equal stores, clients, rules and application state on
+    the chain and on the chain restarted from its export *)
+Theorem C16_continuation_equal :
+  forall (A : Type) (H : bytes -> bytes) (has_route : bytes -> bool)
+         (on_recv : A -> packet -> option (A * option bytes)) (on_ack : A -> packet -> bytes -> option A)
+         (c : chain A) (ops : list (op A)),
+    exported_only (c_kv A c) ->
+    run_log A H has_route on_recv on_ack c ops = run_log A H has_route on_recv on_ack (reimport_chain A c) ops /\
+    (forall k, lookup k (c_kv A (run A H has_route on_recv on_ack c ops)) =
+               lookup k (c_kv A (run A H has_route on_recv on_ack (reimport_chain A c) ops))) /\
+    c_clients A (run A H has_route on_recv on_ack c ops) = c_clients A (run A H has_route on_recv on_ack (reimport_chain A c) ops) /\
+    c_rules A (run A H has_route on_recv on_ack c ops) = c_rules A (run A H has_route on_recv on_ack (reimport_chain A c) ops) /\
+    c_app A (run A H has_route on_recv on_ack c ops) = c_app A (run A H has_route on_recv on_ack (reimport_chain A c) ops).
+Proof. exact continuation_equal. Qed.
+Print Assumptions C16_continuation_equal.
+
+(** every packet operation reads the store only through lookups: two chains whose
+    stores answer every lookup alike are indistinguishable by any history *)
+Theorem C16_history_depends_on_lookups_only :
+  forall (A : Type) (H : bytes -> bytes) (has_route : bytes -> bool)
+         (on_recv : A -> packet -> option (A * option bytes)) (on_ack : A -> packet -> bytes -> option A)
+         (ops : list (op A)) (c c2 : chain A),
+    sim A c c2 ->
+    run_log A H has_route on_recv on_ack c ops = run_log A H has_route on_recv on_ack c2 ops /\
+    sim A (run A H has_route on_recv on_ack c ops) (run A H has_route on_recv on_ack c2 ops).
+Proof. exact run_ext. Qed.
+Print Assumptions C16_history_depends_on_lookups_only.
+
+(** non-vacuity: a store with every key family (three client types with all their
+    metadata, consensus heights 47 / 303 / 12032 and one ending in "/clientState",
+    relayers, rules, packets, clean point, max-ack) is well-formed; the model
+    executed on it returns 23 of its 25 keys byte for byte and drops exactly the
+    clean point and the highest acknowledged sequence *)
+Example C16_nonvacuous :
+  wf_store ex_store /\
+  (In slash (height_bytes 0 47) /\ In slash (height_bytes 0 303) /\ In slash (height_bytes 0 12032) /\
+   skipn 4 (height_bytes suffix_rev suffix_h) = slash :: K_clientState) /\
+  exists m, reimport ex_store = Some m /\
+    forallb (fun kv : bytes * bytes =>
+               if covered (fst kv) || beq (fst kv) K_chainName || beq (fst kv) K_rules
+               then match lookup (fst kv) m with Some v => beq v (snd kv) | None => false end
+               else match lookup (fst kv) m with Some _ => false | None => true end) ex_store = true /\
+    length m = 23%nat.
+Proof.
+  split; [exact ex_store_wf|]. split; [exact ex_heights_contain_slash | exact ex_store_roundtrip].
+Qed.
+
+(** non-vacuity of the continuation theorem's premise *)
+Example C16_continuation_nonvacuous :
+  exported_only [(commit_key cB cA 5, of_string "hash5"); (receipt_key cA cB 3, receipt_value);
+                 (ack_key cA cB 3, of_string "ack3"); (next_send_key cB cA, be64 6)].
+Proof.
+  split; [apply nodupb_spec; vm_compute; reflexivity|].
+  apply all_entries. repeat (apply Forall_cons; [cbn [fst snd]|]); [..|apply Forall_nil].
+  - apply (PE_seq K_commit cB cA 5); [unfold seq_fam; tauto | ns | ns | lt64 |].
+    intros X. apply beq_spec in X. vm_compute in X. discriminate.
+  - apply (PE_seq K_receipt cA cB 3); [unfold seq_fam; tauto | ns | ns | lt64 | reflexivity].
+  - apply (PE_seq K_ack cA cB 3); [unfold seq_fam; tauto | ns | ns | lt64 |].
+    intros X. apply beq_spec in X. vm_compute in X. discriminate.
+  - apply (PE_send cB cA 6); [ns | ns | lt64].
+Qed.
